@@ -223,6 +223,7 @@ func (in *Inst) Body() {
 		})
 	}
 	vrt.Join()
+	in.Bus.Wait() // an async delivery that can never finish keeps Wait, hence this task, blocked: a deadlock
 	in.Rec.Add("quiesced", 0, 0, "")
 	for ty := range Types {
 		in.final[ty] = Types[ty].Count(in.Bus)
@@ -232,6 +233,7 @@ func (in *Inst) Body() {
 			in.Rec.Add("probe", ty, 0, "")
 			Types[ty].Pub(in.Bus, probeBase+2*ty)
 			vrt.Join()
+			in.Bus.Wait()
 		}
 	}
 }
